@@ -8,6 +8,7 @@
 From Coq Require Import ZArith QArith List Bool Sorting.Permutation.
 Import ListNotations.
 Require Import Py Pairing Core Multi Coordinator Checkers ConflictProofs ModesProofs1 ModesProofs2 ModesProofs3 ModesProofs4 ModesExamples.
+Require TotalProofs3.
 Open Scope Z_scope.
 
 (* ---- the modes report the same alignments.  f1 / f2 = first-/second-pass rows, one per query each.
@@ -52,7 +53,10 @@ Proof. exact (rest_flags P seeds maxdiff refs qs o). Qed.
    (both sorts are stable); of a group with >= 2 members only the first two are looked at, and when they are joined the third and later
    members are DROPPED (C08_third_member_dropped below).  After filterOutSubsequentAlignmentsForSingleQuery each of f1, f2 has at most
    one row per query, so a group has one member, or two: the first-pass row followed by the second-pass row (C08_group_bound); hence
-   every single-pass row is in `separate` or is one of the two parts of exactly one joined row (Permutation = equality of multisets). *)
+   every single-pass row is in `separate` or is one of the two parts of exactly one joined row (Permutation = equality of multisets).
+   A joined row is reported only if it has at least one pair (joined_ok j = true; repair F9 `if resolved and resolved.alignedPairs`):
+   a group that passes the guard but whose join has no pair goes to `separate` like a group that fails the guard
+   (C08_unjoined_group_stays_separate below). *)
 Theorem C08_groups_partition rows : Permutation (concat (groups_of rows)) rows /\
   forall g, In g (groups_of rows) -> g <> [] /\ exists r c, g = filter (fun w => qid w =? c) (filter (fun w => rid w =? r) rows).
 Proof. exact (conj (groups_partition rows) (groups_are_filters rows)). Qed.
@@ -63,16 +67,26 @@ Proof. exact (groups_shape f1 f2). Qed.
 Theorem C08_partition f1 f2 maxdiff joined sep :
   NoDup (map qid f1) -> NoDup (map qid f2) -> results_resolve (f1 ++ f2) maxdiff = Ok (joined, sep) ->
   exists parts : list (row * row),
-    Forall2 (fun p j => check_overlap (fst p) (snd p) maxdiff = true /\ join_rows (fst p) (snd p) = Ok j) parts joined /\
+    Forall2 (fun p j => check_overlap (fst p) (snd p) maxdiff = true /\ join_rows (fst p) (snd p) = Ok j /\ joined_ok j = true) parts joined /\
     Forall (fun p => In (fst p) f1 /\ In (snd p) f2 /\ qid (fst p) = qid (snd p) /\ rid (fst p) = rid (snd p)) parts /\
     Permutation (f1 ++ f2) (sep ++ flat_map (fun p => [fst p; snd p]) parts).
 Proof. exact (results_resolve_partition f1 f2 maxdiff joined sep). Qed.
+
+(* for AlignmentResults.resolve on ANY row list: a group that is not joined — one member; first two members fail the guard; or (repair
+   F9) first two members pass the guard but their join has no pair — keeps ALL its members in the un-joined rows *)
+Theorem C08_unjoined_group_stays_separate rows maxdiff joined sep g : results_resolve rows maxdiff = Ok (joined, sep) ->
+  In g (groups_of rows) ->
+  match g with
+  | x :: y :: _ => check_overlap x y maxdiff = false \/ exists j, join_rows x y = Ok j /\ joined_ok j = false
+  | _ => True
+  end -> incl g sep.
+Proof. exact (unjoined_group_separate rows maxdiff joined sep g). Qed.
 
 (* ---- the whole run in mode `all`, with the files of `joined` and `separate` on the same input:
    main = the joined rows re-ordered by query id (none lost: their query ids are distinct); _1 = f1; _2 = f2; the un-joined file `sep`
    of `joined` and the parts of the joined rows partition f1 ++ f2; every joined row j comes from a first-pass row a and a second-pass
    row b (justified, unfolded in C08_justified_unfold): same query, same reference, same strand, reference gap <= maxdiff,
-   j = join_rows a b, and every pair of j is a pair of a or of b. *)
+   j = join_rows a b, j has at least one pair, and every pair of j is a pair of a or of b. *)
 Theorem C08_run P seeds refs qs maxdiff o : program_run P seeds All_ maxdiff refs qs = Ok o ->
   exists f1 f2 joined sep parts,
     o = mkOut (filter_subsequent joined) (Some f1) (Some f2) /\
@@ -87,16 +101,16 @@ Proof. exact (all_mode_run P seeds refs qs maxdiff o). Qed.
 Theorem C08_justified_unfold maxdiff f1 f2 a b j : justified maxdiff f1 f2 (a, b) j <->
   In a f1 /\ In b f2 /\ rest a = false /\ rest b = true /\
   qid a = qid b /\ rid a = rid b /\ rrev a = rrev b /\ Z.abs (Z.max (rs a) (rs b) - Z.min (re a) (re b)) <= maxdiff /\
-  join_rows a b = Ok j /\
+  join_rows a b = Ok j /\ joined_ok j = true /\
   qid j = qid a /\ rid j = rid a /\ rrev j = rrev a /\ rest j = false /\
   (forall x, In x (row_pairs (rsegs j)) -> In x (row_pairs (rsegs a)) \/ In x (row_pairs (rsegs b))).
 Proof. exact (conj (fun H => H) (fun H => H)). Qed.
 
 (* ---- the guard, for AlignmentResults.resolve on ANY row list: a joined row exists only for two rows of the same query on the same
-   reference and strand whose reference gap |max(starts) - min(ends)| is at most maxDifference *)
+   reference and strand whose reference gap |max(starts) - min(ends)| is at most maxDifference, and it has at least one pair *)
 Theorem C08_join_guard rows maxdiff joined sep j : results_resolve rows maxdiff = Ok (joined, sep) -> In j joined ->
   exists a b, In a rows /\ In b rows /\ qid a = qid b /\ rid a = rid b /\ rrev a = rrev b /\
-    Z.abs (Z.max (rs a) (rs b) - Z.min (re a) (re b)) <= maxdiff /\ join_rows a b = Ok j.
+    Z.abs (Z.max (rs a) (rs b) - Z.min (re a) (re b)) <= maxdiff /\ join_rows a b = Ok j /\ joined_ok j = true.
 Proof. exact (join_guard rows maxdiff joined sep j). Qed.
 
 (* ---- a joined row adds nothing: its pairs are pairs of segments[0] of one of the parts (hence of the union of the parts' pairs);
@@ -166,6 +180,14 @@ Example C08_example_resolve :
   results_resolve ([f7_first] ++ [f7_second]) 199999 = Ok ([ex_joined_f7], []) /\
   results_resolve ([f7_first] ++ [f7_second]) 19999 = Ok ([], [f7_first; f7_second]).
 Proof. vm_compute. repeat split; reflexivity. Qed.
+(* the pair-less case of C08_unjoined_group_stays_separate is not vacuous (rows of the witness of finding F9, props/C07.v): the two rows
+   form one group, pass the guard, their join is a row without any pair, both stay un-joined *)
+Example C08_example_pairless_join_not_reported :
+  groups_of [TotalProofs3.f9_row1; TotalProofs3.f9_row2] = [[TotalProofs3.f9_row1; TotalProofs3.f9_row2]] /\
+  check_overlap TotalProofs3.f9_row1 TotalProofs3.f9_row2 1000000 = true /\
+  (exists j, join_rows TotalProofs3.f9_row1 TotalProofs3.f9_row2 = Ok j /\ joined_ok j = false) /\
+  results_resolve [TotalProofs3.f9_row1; TotalProofs3.f9_row2] 1000000 = Ok ([], [TotalProofs3.f9_row1; TotalProofs3.f9_row2]).
+Proof. split; [vm_compute; reflexivity|]. split; [vm_compute; reflexivity|]. split; [eexists; split; vm_compute; reflexivity|]. vm_compute. reflexivity. Qed.
 (* why the bound on the group size matters: a third row of the same query on the same reference disappears when the first two join *)
 Example C08_third_member_dropped :
   results_resolve [f7_first; f7_second; ex_third] 100000 = Ok ([ex_joined_f7], []).
@@ -180,6 +202,7 @@ Print Assumptions C08_rest_flags.
 Print Assumptions C08_groups_partition.
 Print Assumptions C08_group_bound.
 Print Assumptions C08_partition.
+Print Assumptions C08_unjoined_group_stays_separate.
 Print Assumptions C08_run.
 Print Assumptions C08_justified_unfold.
 Print Assumptions C08_join_guard.
